@@ -41,6 +41,9 @@ def make(case):
     clean = synth.make_arrays(mk, tr, n_app=case["n"], n_ret=case["n"],
                               x_start=2e-6, depth=1e-6)
     Fmax = float(np.max(clean["force"]) - 2e-10)
+    if case.get("offset"):
+        # raw force offset that is not small compared with the peak force
+        tr["baseline"] = 2e-10 + case["offset"] * Fmax
     return synth.make_curve(
         mk, tr, n_app=case["n"], n_ret=case["n"], x_start=2e-6, depth=1e-6,
         noise=case["noise"] * Fmax, seed=4,
@@ -350,6 +353,14 @@ def cases(tier):
             continue
         cs.append({"kind": "grid", "model": mk, "noise": noise, "tilt": tilt,
                    "drift": drift, "lag": lag, "quant": q, "n": n})
+    # raw force offsets of +-3 peak forces (all-negative raw force included)
+    for mk in ("hertz_para", "hertz_cone"):
+        for offset in (3.0, -3.0):
+            for lag in (0, 9, 20):
+                for noise in (0.0, 0.01):
+                    cs.append({"kind": "grid", "model": mk, "noise": noise,
+                               "tilt": 0.0, "drift": 0.0, "lag": lag,
+                               "quant": 0.0, "n": 300, "offset": offset})
     # densely sampled curves with a smooth z-drive and a lagged turning
     # point: the measured height reverses gently near the turning point
     for n in ((20000,) if tier == "quick" else (20000, 40000, 8000)):
